@@ -6,6 +6,7 @@
    (urlParse accepts), [re_ok] (regexp.Compile accepts), [digest_ok] (hmacauth knows the
    digest). YAML parsing is outside: the theorems start from the abstract document. *)
 From V Require Import Base Config Config_proofs CorrBase Corr_C14 Corr_C14_proofs Config_witness_proofs.
+From V Require Validators.
 From Coq Require Import Permutation.
 
 (* Loading either fails or yields upstreams that each have a non-empty service name, `from`
@@ -24,7 +25,8 @@ Theorem C14_fail_closed : forall (O : oracle) (E : env) (d : doc) (ups : list up
     u_groups u ++ u_domains u ++ u_addresses u <> []) ups /\
   Forall2 (fun u0 u => u_skip u = o_skip_auth_regex (effective_opts (e_defaults E) (u0_route u0)) /\
                        u_service u = u0_service u0 /\ u_from u = rc_from (u0_route u0) /\
-                       u_to u = rc_to (u0_route u0) /\ u_type u = rc_type (u0_route u0))
+                       u_to u = rc_to (u0_route u0) /\ u_type u = rc_type (u0_route u0) /\
+                       u_route u = route_parts O (u0_route u0) (u_kind u))
           (routes (e_cluster E) (subst_doc (e_tvars E) d)) ups.
 Proof. exact fail_closed. Qed.
 Print Assumptions C14_fail_closed.
@@ -157,7 +159,7 @@ Theorem C14_field_by_field_partial : forall (O : oracle) (E : env) (d : doc) (up
   doc_wf (subst_doc (e_tvars E) d) = true -> env_wf E = true ->
   forallb (fun t => negb (sel_d6 t)) (spec_selected (e_cluster E) (subst_doc (e_tvars E) d)) = true ->
   set_upstream_configs O E d = Ok ups ->
-  forall2b (matches (e_tvars E)) (spec_expected E (subst_doc (e_tvars E) d)) ups = true.
+  forall2b (matches (e_tvars E)) (spec_expected O E (subst_doc (e_tvars E) d)) ups = true.
 Proof. exact field_by_field_d6_free. Qed.
 Print Assumptions C14_field_by_field_partial.
 
@@ -188,7 +190,8 @@ Theorem C14_docs_example :
   (exists u, set_upstream_configs all_ok (docs_env (s_ "sso")) docs_doc = Ok [u] /\
     u_service u = s_ "example_service" /\
     u_from u = s_ "example-service.sso.sso.example.com" /\ u_to u = s_ "example-service.sso.example.com" /\
-    u_kind u = 0 /\ u_groups u = o_groups docs_opts /\ u_skip u = o_skip_auth_regex docs_opts /\
+    u_kind u = 0 /\ u_route u = [lit_http; s_ "example-service.sso.sso.example.com"; lit_http; s_ "example-service.sso.example.com"] /\
+    u_groups u = o_groups docs_opts /\ u_skip u = o_skip_auth_regex docs_opts /\
     u_header_overrides u = o_header_overrides docs_opts /\ u_inject_headers u = o_inject_headers docs_opts /\
     u_domains u = [s_ "env.example.com"] /\ u_timeout u = zs 10) /\
   (exists u, set_upstream_configs all_ok (docs_env (s_ "prod")) docs_doc = Ok [u] /\
@@ -201,9 +204,9 @@ Print Assumptions C14_docs_example.
 (* The monitor used on the implementation's observations accepts the model's own prediction
    for every input respecting the harness guards: 0, or 101 = known finding 1 — and always 0
    when no selected service carries `options:` in both blocks. *)
-Theorem C14_monitor_accepts_model : forall (E : env) (urls res digs : list (str * bool)) (d : doc),
+Theorem C14_monitor_accepts_model : forall (E : env) (T : tables) (d : doc),
   doc_wf (subst_doc (e_tvars E) d) = true -> env_wf E = true ->
-  let c := CLoad E urls res digs d (to_obs (set_upstream_configs (oracle_of urls res digs) E d)) in
+  let c := CLoad E T d (to_obs (set_upstream_configs (oracle_of T) E d)) in
   (judge c = 0 \/ judge c = 101) /\
   (forallb (fun t => negb (sel_d6 t)) (spec_selected (e_cluster E) (subst_doc (e_tvars E) d)) = true -> judge c = 0).
 Proof. exact judge_load_model. Qed.
@@ -214,7 +217,16 @@ Theorem C14_monitor_accepts_model_templates : forall (tv : smap) (toks : list to
 Proof. exact judge_tmpl_model. Qed.
 Print Assumptions C14_monitor_accepts_model_templates.
 
+(* The validators proxy.New builds from a resolved upstream (C11's model of proxy.New and the login
+   callback on the upstream's own rule lists), asked with any identities: the monitor's
+   documented any-of rule accepts them — so an upstream admits an identity only through one of
+   ITS OWN resolved rules, whatever other upstreams the deployment contains and in whatever order. *)
+Theorem C14_monitor_accepts_model_validators : forall (ids : list (str * list str)) (pols : list Validators.policy),
+  judge (CAdmit ids pols (admit_rows ids pols)) = 0.
+Proof. exact judge_admit_model. Qed.
+Print Assumptions C14_monitor_accepts_model_validators.
+
 Theorem C14_witness_is_known_finding :
-  judge (CLoad w_env [] [] [] w_doc (to_obs (set_upstream_configs (oracle_of [] [] []) w_env w_doc))) = 101.
+  judge (CLoad w_env w_tables w_doc (to_obs (set_upstream_configs (oracle_of w_tables) w_env w_doc))) = 101.
 Proof. exact witness_judged_known. Qed.
 Print Assumptions C14_witness_is_known_finding.
